@@ -1,0 +1,74 @@
+//go:build verif
+
+package file
+
+import (
+	"os"
+	"strconv"
+	"strings"
+	"sync"
+	"syscall"
+	"time"
+)
+
+// VerifHook, when set by an in-process controller, is called at every point (yield point of a
+// schedule). Only available with the build tag "verif".
+var VerifHook func(name string)
+
+var (
+	verifMtx    sync.Mutex
+	verifCounts = map[string]int{}
+)
+
+// VerifPoint marks a file-system step.
+//
+//	VERIF_CRASH_AT=<name>[#k]           the process exits immediately (status 137, no deferred calls)
+//	                                    the k-th time (default first) the point <name> is reached
+//	VERIF_SIGNAL_AT=<name>[#k]:<signal> the process sends itself SIGINT / SIGTERM / SIGQUIT there
+//	VERIF_TRACE=<file>                  every point reached is appended to <file>
+func VerifPoint(name string) {
+	if VerifHook != nil {
+		VerifHook(name)
+	}
+
+	verifMtx.Lock()
+	verifCounts[name]++
+	cnt := verifCounts[name]
+	verifMtx.Unlock()
+
+	if t := os.Getenv("VERIF_TRACE"); t != "" {
+		if fp, err := os.OpenFile(t, os.O_APPEND|os.O_CREATE|os.O_WRONLY, 0644); err == nil {
+			_, _ = fp.WriteString(name + "\n")
+			_ = fp.Close()
+		}
+	}
+
+	if c := os.Getenv("VERIF_CRASH_AT"); c != "" && verifMatch(c, name, cnt) {
+		os.Exit(137)
+	}
+
+	if s := os.Getenv("VERIF_SIGNAL_AT"); s != "" {
+		if i := strings.LastIndex(s, ":"); 0 < i && verifMatch(s[:i], name, cnt) {
+			sig := syscall.SIGINT
+			switch s[i+1:] {
+			case "SIGTERM":
+				sig = syscall.SIGTERM
+			case "SIGQUIT":
+				sig = syscall.SIGQUIT
+			}
+			_ = syscall.Kill(os.Getpid(), sig)
+			time.Sleep(50 * time.Millisecond)
+		}
+	}
+}
+
+func verifMatch(spec string, name string, cnt int) bool {
+	k := 1
+	if i := strings.Index(spec, "#"); 0 < i {
+		if n, err := strconv.Atoi(spec[i+1:]); err == nil {
+			k = n
+		}
+		spec = spec[:i]
+	}
+	return spec == name && cnt == k
+}
